@@ -50,6 +50,10 @@ func bigIndexModule(rng *rand.Rand, n int) string {
 	names := make([]string, n)
 	for i := range names {
 		names[i] = []string{"t", "struct.S", "node", "T", "u"}[rng.Intn(5)] + fmt.Sprint(rng.Intn(3*n))
+		if i%7 == 3 {
+			// numbers beyond 64 bits, differing in their last digits only
+			names[i] = fmt.Sprintf("struct.anon.1844674407370955161%d%d", 6+rng.Intn(4), rng.Intn(10))
+		}
 	}
 	// unique
 	seen := map[string]bool{}
@@ -75,6 +79,9 @@ func bigIndexModule(rng *rand.Rand, n int) string {
 	}
 	for i := 0; i < n; i++ {
 		fmt.Fprintf(&sb, "$c%d = comdat %s\n", i, []string{"any", "largest", "nodeduplicate", "samesize", "exactmatch"}[rng.Intn(5)])
+	}
+	for i := 0; i < 4; i++ {
+		fmt.Fprintf(&sb, "$big.3402823669209384634633746074317682114%d = comdat any\n!named.9999999999999999999999%d = !{}\n", 50+i, i)
 	}
 	for i := 0; i < n; i++ {
 		t := tn[rng.Intn(len(tn))]
@@ -371,7 +378,16 @@ func c12Case(r *fw.Rec, proc int, s corpus.Source, companions []corpus.Source) {
 		case "Parse/bytes.Reader":
 			o = c12Parse(func() (*ir.Module, error) { return asm.Parse(s.ID, bytes.NewReader([]byte(text))) })
 		case "ParseBytes":
-			o = c12Parse(func() (*ir.Module, error) { return asm.ParseBytes(s.ID, []byte(text)) })
+			o = c12Parse(func() (*ir.Module, error) {
+				// the caller's buffer is the caller's: it is overwritten as soon as
+				// ParseBytes returns (a module must not keep views into it)
+				buf := []byte(text)
+				m, err := asm.ParseBytes(s.ID, buf)
+				for i := range buf {
+					buf[i] = 'X'
+				}
+				return m, err
+			})
 		case "Parse/chunk-reader-eof-with-last-data":
 			o = c12Parse(func() (*ir.Module, error) {
 				return asm.Parse(s.ID, &chunkReader{data: []byte(text), rng: rng, eofWithData: true})
